@@ -331,7 +331,42 @@ impl Drop for InCall {
     }
 }
 
+/// The watchdog of the tokio twins: the hang becomes a violation in the RESULT line the main binary merges.
+pub fn start_hang_watchdog_twin(rt: &'static str) {
+    start_watchdog(Box::new(move |case: Value, _secs: f64| {
+        let mut st = Stats::default();
+        st.evaluations = 1;
+        st.violation(format!("[{}] a call into the code under check did not return (hang)", rt), || case.clone());
+        st.caps.push("hang: the enumeration was abandoned at the first call that did not return".into());
+        println!("RESULT {}", st.to_json());
+        std::process::exit(0);
+    }));
+}
+
 fn start_hang_watchdog(id: String, tier: Tier, seed: u64) {
+    start_watchdog(Box::new(move |case: Value, wall: f64| {
+        let root = root();
+        let dir = root.join("replays").join(&id);
+        let _ = std::fs::create_dir_all(&dir);
+        let path = dir.join("hang.json");
+        let sig = "a call into the code under check did not return (hang)";
+        let _ = std::fs::write(&path, serde_json::to_string_pretty(&json!({"property": id, "signature": sig, "cases": 1, "case": case})).unwrap());
+        println!("VIOLATION property={} replay={}", id, path.display());
+        println!("  signature={} cases=1 first={}", sig, case);
+        let ev = json!({
+            "property_id": id, "tier": if tier == Tier::Quick { "quick" } else { "thorough" }, "seed": seed, "level": "model_checking",
+            "coverage": {"states": 1, "transitions": 1, "traces_validated_against_impl": 0, "evaluations": 1, "distinct_nontrivial": 1,
+                "rule": "the run was cut short: one call into the code under check did not return", "samples": [case], "exhaustive": false,
+                "caps_hit": ["hang: the enumeration was abandoned at the first call that did not return"], "violation_signatures": [{"signature": sig, "cases": 1, "known_finding": false, "replay": path.display().to_string()}]},
+            "assumptions": [], "wall_s": wall, "violations": 1,
+        });
+        let _ = std::fs::create_dir_all(root.join("evidence"));
+        let _ = std::fs::write(root.join("evidence").join(format!("{}.json", id)), serde_json::to_string_pretty(&ev).unwrap());
+        std::process::exit(1);
+    }));
+}
+
+fn start_watchdog(on_hang: Box<dyn Fn(Value, f64) + Send>) {
     use std::sync::atomic::Ordering::Relaxed;
     let t0 = Instant::now();
     std::thread::Builder::new()
@@ -349,24 +384,8 @@ fn start_hang_watchdog(id: String, tier: Tier, seed: u64) {
                 if since != 0 && now.saturating_sub(since) > HANG_LIMIT_S * 1000 {
                     let n = s.len.load(Relaxed).min(160);
                     let what: Vec<u8> = unsafe { std::slice::from_raw_parts(s.buf.get() as *const u8, n).to_vec() };
-                    let root = root();
-                    let dir = root.join("replays").join(&id);
-                    let _ = std::fs::create_dir_all(&dir);
-                    let path = dir.join("hang.json");
-                    let sig = "a call into the code under check did not return (hang)";
                     let case = json!({"input_head": show(&what), "seconds_without_return": (now - since) / 1000});
-                    let _ = std::fs::write(&path, serde_json::to_string_pretty(&json!({"property": id, "signature": sig, "cases": 1, "case": case})).unwrap());
-                    println!("VIOLATION property={} replay={}", id, path.display());
-                    println!("  signature={} cases=1 first={}", sig, case);
-                    let ev = json!({
-                        "property_id": id, "tier": if tier == Tier::Quick { "quick" } else { "thorough" }, "seed": seed, "level": "model_checking",
-                        "coverage": {"states": 1, "transitions": 1, "traces_validated_against_impl": 0, "evaluations": 1, "distinct_nontrivial": 1,
-                            "rule": "the run was cut short: one call into the code under check did not return", "samples": [case], "exhaustive": false,
-                            "caps_hit": ["hang: the enumeration was abandoned at the first call that did not return"], "violation_signatures": [{"signature": sig, "cases": 1, "known_finding": false, "replay": path.display().to_string()}]},
-                        "assumptions": [], "wall_s": t0.elapsed().as_secs_f64(), "violations": 1,
-                    });
-                    let _ = std::fs::create_dir_all(root.join("evidence"));
-                    let _ = std::fs::write(root.join("evidence").join(format!("{}.json", id)), serde_json::to_string_pretty(&ev).unwrap());
+                    on_hang(case, t0.elapsed().as_secs_f64());
                     std::process::exit(1);
                 }
             }
